@@ -126,7 +126,7 @@ def _cmp_entry(prefix, name, exp, got, ptags, policy, out, is_return=False):
     if not policy.types:
         pass
     elif policy.type_map is not None:
-        acceptable = policy.type_map(et, exp)
+        acceptable = policy.type_map(et, dict(exp, _is_return=True) if is_return else exp)
         if acceptable is not None and not any(types_equal(a, gt, policy.ignore_type_ws) for a in acceptable):
             out.append(Disc(prefix + ("typ:lost" if gt is None else "typ:invented" if et is None else "typ:changed"), where,
                             "expected %s got %r" % (" or ".join(sorted(repr(a) for a in acceptable)), gt), ptags))
